@@ -176,6 +176,8 @@ def run_cmd(cmd, timeout=None, env=None, stdin=None, cwd=None):
 TLC_JAR = "/opt/veriftools/tla/tla2tools.jar"
 TLC_CP = TLC_JAR + ":/opt/veriftools/tla/CommunityModules-deps.jar"
 _run_counter = [0]
+import threading
+_counter_lock = threading.Lock()
 
 
 class TlcResult:
@@ -219,8 +221,10 @@ def run_tlc(module, cfg=None, workers=None, timeout=600, env=None, simulate=None
         cfg = mpath[:-4] + ".cfg"
     elif not os.path.isabs(cfg):
         cfg = os.path.join(mdir, cfg)
-    _run_counter[0] += 1
-    meta = os.path.join(WORK, "tlc", "%s-%d-%d" % (os.path.basename(mpath)[:-4], os.getpid(), _run_counter[0]))
+    with _counter_lock:
+        _run_counter[0] += 1
+        n_run = _run_counter[0]
+    meta = os.path.join(WORK, "tlc", "%s-%d-%d" % (os.path.basename(mpath)[:-4], os.getpid(), n_run))
     shutil.rmtree(meta, ignore_errors=True)
     ensure_dir(meta)
     jopts = ["-XX:+UseParallelGC", "-XX:ParallelGCThreads=%d" % max(1, min(4, workers or 1)), "-Xmx" + heap, "-Xss64m"]
@@ -256,6 +260,25 @@ def run_tlc(module, cfg=None, workers=None, timeout=600, env=None, simulate=None
     deadline = t0 + timeout
     import select
     timed_out = False
+
+    def handle(s):
+        if collect_json and s.startswith("{") and s.endswith("}"):
+            try:
+                obj = json.loads(s)
+                (json_sink or res.json.append)(obj)
+                return
+            except ValueError:
+                pass
+        if collect_json and s.startswith('"{') and s.endswith('}"'):
+            # PrintT of a string produced by ToJson is printed as a quoted TLA+ string
+            try:
+                obj = json.loads(s[1:-1].replace('\\"', '"').replace("\\\\", "\\"))
+                (json_sink or res.json.append)(obj)
+                return
+            except ValueError:
+                pass
+        lines.append(s)
+
     while True:
         if time.time() > deadline:
             p.kill()
@@ -266,34 +289,12 @@ def run_tlc(module, cfg=None, workers=None, timeout=600, env=None, simulate=None
             line = p.stdout.readline()
             if not line:
                 break
-            s = line.rstrip("\n")
-            if collect_json and s.startswith("{") and s.endswith("}"):
-                try:
-                    obj = json.loads(s)
-                    if json_sink is not None:
-                        json_sink(obj)
-                    else:
-                        res.json.append(obj)
-                    continue
-                except ValueError:
-                    pass
-            if s.startswith('"{') and s.endswith('}"'):
-                # PrintT of a string produced by ToJson is printed as a quoted TLA+ string
-                try:
-                    inner = s[1:-1].replace('\\"', '"').replace("\\\\", "\\")
-                    obj = json.loads(inner)
-                    if json_sink is not None:
-                        json_sink(obj)
-                    else:
-                        res.json.append(obj)
-                    continue
-                except ValueError:
-                    pass
-            lines.append(s)
+            handle(line.rstrip("\n"))
         elif p.poll() is not None:
             rest = p.stdout.read()
-            if rest:
-                lines.extend(rest.split("\n"))
+            for s in (rest or "").split("\n"):
+                if s:
+                    handle(s)
             break
     p.wait()
     res.wall = time.time() - t0
@@ -373,6 +374,7 @@ class Check:
         self.t0 = time.time()
         self.violations = []       # (key, description, replay)
         self.known_hits = {}
+        self.violation_counts = {}
         self.cov = {"samples": []}
         self.tlc_runs = []
         self.assumptions = []
@@ -411,6 +413,9 @@ class Check:
             if re.fullmatch(f["key"], key) if f.get("regex") else f["key"] == key:
                 self.known_hits.setdefault(f["key"], f)
                 return False
+        self.violation_counts[key] = self.violation_counts.get(key, 0) + 1
+        if self.violation_counts[key] > 1:
+            return True   # same key again: counted, reported once
         self.violations.append((key, desc, replay))
         log("VIOLATION property=%s replay=%s" % (self.pid, replay))
         log("  what: %s [key=%s]" % (desc, key))
@@ -436,7 +441,8 @@ class Check:
         ev = {"property_id": self.pid, "tier": self.tier, "seed": seed(), "level": self.level,
               "coverage": cov, "assumptions": self.assumptions, "wall_s": round(wall, 2),
               "violations": len(self.violations),
-              "known_findings_hit": sorted(self.known_hits.keys())}
+              "known_findings_hit": sorted(self.known_hits.keys()),
+              "violation_keys": self.violation_counts}
         ensure_dir(EVID)
         tmp = os.path.join(EVID, self.pid + ".json.tmp")
         with open(tmp, "w") as f:
